@@ -279,6 +279,10 @@ def import_case(draw):
         d = draw(st.one_of(st.integers(1, 640).map(lambda k: k / 64), st.floats(1e-3, 10.0, allow_nan=False)))
         lo = draw(st.one_of(st.integers(0, 100).map(lambda k: k * 100.0), st.floats(0.0, 20000.0, allow_nan=False)))
         bw = draw(st.one_of(st.integers(1, 100).map(lambda k: k * 50.0), st.floats(1.0, 20000.0, allow_nan=False)))
+        if draw(st.integers(0, 4)) == 0:
+            # a full-height selection: from 0 Hz to exactly the Nyquist frequency of the recording (as the file has it, or as the
+            # time-expanded recording has it) - still a box with two frequencies
+            lo, bw = 0.0, draw(st.sampled_from([sr / 2, sr / 2 / te, sr / 2]))
         elems.append({"onset": a, "offset": a + d, "low": lo, "high": lo + bw, "label": draw(st.sampled_from(LABELS)), "seconds": draw(st.sampled_from([True, True, False]))})
     return {"sr": sr, "te": te, "adjust": draw(st.sampled_from([True, True, False])), "kind": draw(st.sampled_from(["segment", "bbox", "sequence", "annotation_bbox", "annotation_seq"])), "elems": elems,
             "key": draw(st.one_of(st.none(), st.sampled_from(KEYS)))}
